@@ -1,10 +1,111 @@
 import KawinV.Proto
-/-! driver verbs for C19 (stub: no verbs yet) -/
+import KawinV.Model.StopCond
+/-! driver verbs for the stopping-condition model (Float instance).
+
+history block  `nP nE time(N) volFrac(N*nP) Ravg drivingForce nucRate density composition(N*nE)`
+names block    `phases(list of tokens) elements(list of tokens)`
+condition      `q(0..5) dir(G|L) value selector(- = None | name)`
+-/
 namespace KawinV.Drv.C19
-open KawinV.Proto
+open KawinV.Proto KawinV.StopCond
+
+def grid (a : Array Float) (w : Nat) : Nat → Nat → Float := fun r c => a.getD (r * w + c) 0.0
+
+def pdata : P (PData Float) := do
+  let nP ← nat; let nE ← nat
+  let t ← flts; let vf ← flts; let ra ← flts; let dg ← flts; let nr ← flts; let de ← flts; let co ← flts
+  let ta := t.toArray
+  pure { time := fun i => ta.getD i 0.0,
+         volFrac := grid vf.toArray nP, Ravg := grid ra.toArray nP, drivingForce := grid dg.toArray nP,
+         nucRate := grid nr.toArray nP, precipitateDensity := grid de.toArray nP,
+         composition := grid co.toArray nE }
+
+def quantity : P Quantity := do
+  let k ← nat
+  match k with
+  | 0 => pure .volFrac | 1 => pure .radius | 2 => pure .drivingForce
+  | 3 => pure .nucRate | 4 => pure .density | 5 => pure .composition
+  | _ => failure
+
+def dir : P Dir := do
+  let t ← tok
+  match t with | "G" => pure .gt | "L" => pure .lt | _ => failure
+
+/-- a condition; `none` when the selector does not resolve (the Python side raises) -/
+def cond (phases elements : List String) : P (Option (Cond Float)) := do
+  let q ← quantity; let d ← dir; let v ← flt; let s ← tok
+  let sel := if s == "-" then none else some s
+  pure ((columnOf phases elements q sel).map (fun c => ⟨q, d, v, c⟩))
+
+def latch : P (Latch Float) := do
+  let s ← bool; let t ← flt
+  pure ⟨s, t⟩
+
+def showLatch (l : Latch Float) : String := s!"{bstr l.sat} {fout l.time}"
+
+/-- sc.seq  history names cond latch steps(list of n) → the latch after every `testCondition` -/
+def seq : P String := do
+  let d ← pdata; let ph ← lst tok; let el ← lst tok
+  let c ← cond ph el; let l0 ← latch; let steps ← lst nat
+  match c with
+  | none => pure "raise"
+  | some c =>
+    let (_, out) := steps.foldl (fun (acc : Latch Float × List String) n =>
+        let l := test d n c acc.1
+        (l, showLatch l :: acc.2)) (l0, [])
+    pure (" ".intercalate (toString steps.length :: out.reverse))
+
+def entries (ph el : List String) : P (Option (List (Entry Float))) := do
+  let k ← nat
+  let es ← rep (do
+      let c ← cond ph el; let o ← bool; let l ← latch
+      pure (c.map (fun c => (⟨c, o, l⟩ : Entry Float)))) k
+  pure (es.foldr (fun e acc => match e, acc with
+      | some e, some acc => some (e :: acc)
+      | _, _ => none) (some []))
+
+def showEntries (es : List (Entry Float)) : String :=
+  " ".intercalate (toString es.length :: es.map (fun e => showLatch e.l))
+
+/-- sc.run  history names tf fuel reset?(T|F) entries
+    → last row, stopped early, stop flag of every step taken, latches -/
+def runV : P String := do
+  let d ← pdata; let ph ← lst tok; let el ← lst tok
+  let tf ← flt; let fuel ← nat; let rs ← bool
+  let es ← entries ph el
+  match es with
+  | none => pure "raise"
+  | some es =>
+    let es := if rs then resetAll es else es
+    let (m, stopped, es') := run d tf fuel 0 es
+    let flags := (List.range m).map (fun k => bstr (stopFlag (evolve d es (k+1))))
+    pure s!"{m} {bstr stopped} {" ".intercalate (toString m :: flags)} {showEntries es'}"
+
+/-- sc.ttp  history names tf fuel conds(with their current latches; modes are all 'and')
+    → the reported times -/
+def ttp : P String := do
+  let d ← pdata; let ph ← lst tok; let el ← lst tok
+  let tf ← flt; let fuel ← nat
+  let k ← nat
+  let cl ← rep (do let c ← cond ph el; let l ← latch; pure (c, l)) k
+  if cl.any (fun x => x.1.isNone) then pure "raise" else
+  let cs := cl.filterMap (fun x => x.1)
+  let ls := cl.map (fun x => x.2)
+  pure (flist (ttpTimes d tf fuel (ttpEntries cs ls)))
+
+/-- sc.stop  k × (isOr sat) → the stop flag of `postProcess` for these latch states -/
+def stopV : P String := do
+  let k ← nat
+  let xs ← rep (do let o ← bool; let s ← bool; pure (o, s)) k
+  let es : List (Entry Float) := xs.map (fun x => ⟨⟨.volFrac, .gt, 0.0, 0⟩, x.1, ⟨x.2, 0.0⟩⟩)
+  pure (bstr (stopFlag es))
 
 def handle (verb : String) : Option (P String) :=
   match verb with
+  | "sc.seq" => some seq
+  | "sc.run" => some runV
+  | "sc.ttp" => some ttp
+  | "sc.stop" => some stopV
   | _ => none
 
 end KawinV.Drv.C19
